@@ -2,8 +2,24 @@
    Statement-only file.  Model: Query/Phrase.v (line-level bigram chain).  Spec: Query/Phrase_Spec.v. *)
 From Coq Require Import Sorted.
 From SA Require Import Base.Prelude Codec.Codec_Spec Index.Index Query.Phrase Query.Phrase_Spec
-  Query.Phrase_Proofs Query.Phrase_Proofs2 Query.Phrase_Proofs3.
+  Query.Phrase_Proofs Query.Phrase_Proofs2 Query.Phrase_Proofs3 Query.Phrase_Final Index.Index_Spec.
 Open Scope N_scope.
+
+(* MAIN THEOREM: for every corpus within the limits, every batch size, every phrase of two or more terms in which
+   no term is immediately followed by itself (terms present in the corpus or not): indexing succeeds and the
+   phrase frequency of every document is the number of offsets at which the phrase occurs contiguously *)
+Theorem C03_phrase_frequency_is_occurrence_count : forall docs bs ph,
+  wf_docs docs -> (2 <= length ph)%nat -> no_adjacent_repeat ph = true ->
+  exists ix, index false bs docs = AOk ix /\ phrase_freqs ix ph = AOk (phrase_spec docs ph).
+Proof. exact C03_phrase_freqs. Qed.
+Print Assumptions C03_phrase_frequency_is_occurrence_count.
+
+(* positive exactly for the documents that contain the phrase contiguously *)
+Theorem C03_positive_iff_phrase_occurs : forall docs bs ph,
+  wf_docs docs -> (2 <= length ph)%nat -> no_adjacent_repeat ph = true ->
+  exists ix res, index false bs docs = AOk ix /\ phrase_freqs ix ph = AOk res /\ length res = length docs /\
+    forall d, nth d res 0 > 0 <-> exists pre suf, nth d docs [] = pre ++ ph ++ suf.
+Proof. exact C03_positive_iff_contains. Qed.
 
 (* the bigram step: on well-formed posting lists (strictly increasing headers, buckets <= 14563, zero payloads
    allowed on the left) with no common word, the continuation holds exactly the END positions p+1 of the
